@@ -52,17 +52,17 @@ def run(cx):
             if st:
                 cx.must_pass('C05.P1', f, emits, via_blocks={st[0].bb}, what=f'{nm}-set-before-every-emit')
         own = [s for s in emits if s.term.startswith('<Name as BinEncodable>::emit(')]
-        cx.check('C05.P1', len(own) == 1 and bool(re.search(r'^<Name as BinEncodable>::emit\(try\(tbs::determine_name\(arg1,arg3\.num_labels\)\)@Continue\.0,BinEncoder::with_name_encoding\(var\(encoder\),NameEncoding::UncompressedLowercase\)\)$', own[0].term)),
+        cx.check('C05.P1', len(own) == 1 and bool(re.search(r'^<Name as BinEncodable>::emit\(try\(tbs::determine_name\(arg1,arg3\.num_labels\)\)@Continue\.0,BinEncoder::with_name_encoding\(var\(\w+\),NameEncoding::UncompressedLowercase\)\)$', own[0].term)),
                  f.path, 'emit:owner', 'owner=determine_name-lowercased', own[0].term[:200] if own else 'none')
         # ------------------------------------------------------------ Q1/S1 sequence and provenance
         REC = r"<IntoIter<T;A> as Iterator>::next\(.*\)@Some\.0(\.\d)?"
-        seq = [('sig-input', r'^<SigInput as BinEncodable>::emit\(arg3,var\(encoder\)\)$'),
+        seq = [('sig-input', r'^<SigInput as BinEncodable>::emit\(arg3,var\(\w+\)\)$'),
                ('owner', r'^<Name as BinEncodable>::emit\('),
-               ('type', r'^<RecordType as BinEncodable>::emit\(arg3\.type_covered,var\(encoder\)\)$'),
-               ('class', r'^<DNSClass as BinEncodable>::emit\(arg2,var\(encoder\)\)$'),
-               ('orig-ttl', r'^<u32 as BinEncodable>::emit\(arg3\.original_ttl,var\(encoder\)\)$'),
+               ('type', r'^<RecordType as BinEncodable>::emit\(arg3\.type_covered,var\(\w+\)\)$'),
+               ('class', r'^<DNSClass as BinEncodable>::emit\(arg2,var\(\w+\)\)$'),
+               ('orig-ttl', r'^<u32 as BinEncodable>::emit\(arg3\.original_ttl,var\(\w+\)\)$'),
                ('rdlength-place', None),
-               ('rdata', rf'^<RData as BinEncodable>::emit\({REC}\.data,var\(encoder\)\)$'),
+               ('rdata', rf'^<RData as BinEncodable>::emit\({REC}\.data,var\(\w+\)\)$'),
                ('rdlength-replace', None)]
         sites = {}
         for nm, rx in seq:
@@ -87,7 +87,7 @@ def run(cx):
                 cx.must_pass('C05.Q1', f, [sites[b]], via_blocks={sites[a].bb}, start_blocks=body, what=f'per-RR:{a}-before-{b}')
         if 'rdlength-replace' in sites:
             s = sites['rdlength-replace']
-            ok = bool(re.search(r'^Place::replace\(try\(BinEncoder::place\(var\(encoder\)\)\)@Continue\.0,var\(encoder\),try\(Result::map_err\(.*try_from\(BinEncoder::len_since_place\(var\(encoder\),try\(BinEncoder::place\(var\(encoder\)\)\)@Continue\.0\)\)', s.term))
+            ok = bool(re.search(r'^Place::replace\(try\(BinEncoder::place\(var\(\w+\)\)\)@Continue\.0,var\(\w+\),try\(Result::map_err\(.*try_from\(BinEncoder::len_since_place\(var\(\w+\),try\(BinEncoder::place\(var\(\w+\)\)\)@Continue\.0\)\)', s.term))
             cx.check('C05.S1', ok, f.path, s.key(), 'rdlength=len_since_place(same place)', s.term[:200], s.loc)
         txt = ' '.join(s.term for s in emits)
         cx.check('C05.S1', not re.search(r'@Some\.0(\.\d)?\.ttl', txt), f.path, 'emits', 'record-ttl-not-signed', 'the per-record TTL must not reach the signed data')
